@@ -239,3 +239,18 @@ package dialer
 //@     invariant forall k int {annotation[k]} :: 0 <= k && k < $idx ==> okEnt(k)
 //@     invariant anno.AddLatency != 0 ==> (exists k int {annotation[k]} :: 0 <= k && k < $idx && lat(k) == anno.AddLatency && (forall q int {annotation[q]} :: 0 <= q && q < k ==> lat(q) == 0))
 //@     invariant anno.AddLatency == 0 ==> (forall k int {annotation[k]} :: 0 <= k && k < $idx ==> lat(k) == 0)
+
+// C20 (muting of node-failure reports around a reload): the scope counter never goes below zero, a
+// begin adds one, an end removes one, and the quiesce window is armed exactly on the 1 -> 0 step.
+//@ func BeginReloadProxyFailureSuppression
+//@   modifies reloadProxyFailureSuppression
+//@   requires reloadProxyFailureSuppression.Load() < 1000000
+//@   ensures reloadProxyFailureSuppression.Load() == old(reloadProxyFailureSuppression.Load()) + 1
+//@ func EndReloadProxyFailureSuppression
+//@   dyncalls noeffect
+//@   modifies reloadProxyFailureSuppression, reloadProxyFailureSuppressUntil
+//@   ensures old(reloadProxyFailureSuppression.Load()) <= 0 ==> reloadProxyFailureSuppression.Load() == old(reloadProxyFailureSuppression.Load()) && reloadProxyFailureSuppressUntil.Load() == old(reloadProxyFailureSuppressUntil.Load())
+//@   ensures old(reloadProxyFailureSuppression.Load()) > 0 ==> reloadProxyFailureSuppression.Load() == old(reloadProxyFailureSuppression.Load()) - 1
+//@   ensures old(reloadProxyFailureSuppression.Load()) > 1 ==> reloadProxyFailureSuppressUntil.Load() == old(reloadProxyFailureSuppressUntil.Load())
+//@   loop 1
+//@     invariant reloadProxyFailureSuppression.Load() == old(reloadProxyFailureSuppression.Load()) && reloadProxyFailureSuppressUntil.Load() == old(reloadProxyFailureSuppressUntil.Load())
